@@ -20,7 +20,7 @@ func c17Inputs() ([]ArgsType, []float64) {
 	var xs []float64
 	for i := 0; i < n; i++ {
 		x := verifFloat64([]string{"x0", "x1", "x2"}[i])
-		verifAssume(x >= -1e6 && x <= 1e6) // finite, either sign; 8-decimal rendering is faithful in this range
+		verifAssume(x >= -1e6 && x <= 1e6)             // finite, either sign; 8-decimal rendering is faithful in this range
 		verifAssume(x == 0 || x >= 1e-7 || x <= -1e-7) // below 1e-7 the 8-decimal rendering cannot tell values apart
 		xs = append(xs, x)
 		args = append(args, gjson.Result{Type: gjson.Number, Num: x})
